@@ -76,6 +76,12 @@ Definition geom_dft (M S dmin : Z) (pad : bool) : Z :=
 (* int(np.ceil((D - M + 2 S) / S)) *)
 Definition geom_nblk (D M S : Z) : Z := (D - M + 2 * S + S - 1) / S.
 
+(* "frame shift shorter than the longest filter's one-sided support" *)
+Definition one_sided_support (centered : bool) (M tr : Z) : Z :=
+  if centered then M - M / 2  (* from the support's centre; M/2 = tr *)
+  else M - tr.                (* from sample 0: the largest right end *)
+
+
 Section Poly.
   Variable K : Type.
   Variable kzero : K.
@@ -109,6 +115,28 @@ Section Poly.
     cW0 : list K;         (* _window[0], length S *)
     cW1 : list K          (* _window[1], length S *)
   }.
+
+  (* structural facts established by the constructor *)
+  Record geo (c : cfg) : Prop := mkGeo {
+    g_S : 0 < cS c;
+    g_M : 1 <= cM c;
+    g_tr : 0 <= cTr c;
+    g_D : cM c + cS c - 1 <= cD c;
+    g_nblk : cD c - cM c + 2 * cS c <= cNblk c * cS c;
+    g_w0 : zlen (cW0 c) = cS c;
+    g_w1 : zlen (cW1 c) = cS c;
+    g_taps : Forall (fun tp => zlen tp <= cM c) (cTaps c)
+  }.
+
+
+  (* the hypothesis of the theorems: constructor facts + "frame shift shorter
+     than the longest filter's one-sided support", in the form the proof needs *)
+  Definition pre (c : cfg) : Prop :=
+    geo c /\
+    if cCentered c
+    then cTr c <= cM c - 1 /\ cS c - cS c / 2 <= cM c
+    else cS c + cTr c + 1 <= cM c.
+
 
   (* ---- numeric kernels ---- *)
   Definition zsum (f : Z -> K) (n : Z) : K :=
